@@ -110,6 +110,10 @@ ASSUME \A a, s \in Dom :
               /\ M!Round(a, s) \in {M!Clamp(f), M!Clamp(f + AbsI(s))}
               /\ (a - f < f + AbsI(s) - a => M!Round(a, s) = M!Clamp(f))
               /\ (a - f >= f + AbsI(s) - a => M!Round(a, s) = M!Clamp(f + AbsI(s)))
+\* the relaxation at saturation never applies when floor and ceil are both representable
+ASSUME \A a, s \in Dom :
+          (s # 0 /\ M!FloorRaw(a, s) \in Dom /\ M!FloorRaw(a, s) + AbsI(s) \in Dom)
+             => (M!CeilSet(a, s) = {M!Ceil(a, s)} /\ M!RoundSet(a, s) = {M!Round(a, s)})
 ASSUME \A a \in Dom : M!Floor(a, 0) = 0 /\ M!Ceil(a, 0) = 0 /\ M!Round(a, 0) = 0
 \* C11/C02: compose inverts decompose
 ASSUME \A a \in Dom :
